@@ -237,7 +237,7 @@ def features(x, p):
     cells = keys if pos == "key" else vals if pos == "value" else keys + vals
     toks = {t for c in cells for t in c}
     special = sorted(toks - PLAIN)
-    dash = lambda c: all(t == "DASH" for t in c)
+    dash = lambda c: all(t in ("DASH", "FS") for t in c)
     key = {"fmt": x["f"], "v": x["v"], "kind": x["k"], "why": "+".join(sorted(p["whys"])), "pos": pos,
            "crlf_pair": any(c[i] == "CR" and c[i + 1] == "LF" for c in cells for i in range(len(c) - 1)),
            "has_cr": "CR" in toks, "has_lf": "LF" in toks, "has_tab": "TAB" in toks,
@@ -312,7 +312,7 @@ def run(tier, seed):
         if errs[idx] == "timeout":
             p = dict(p, whys=["hang"])
         V.violation(features(x, p),
-                    {"classes": sorted({t for r in x["s"] for kv in r for c in kv for t in c} - PLAIN), "case": {k: x[k] for k in ("k", "f", "v", "fam", "st", "s")}, "whys": p["whys"], "first_differing_record": p.get("rec"),
+                    {"classes": sorted({t for r in x["s"] for kv in r for c in kv for t in c} - PLAIN), "case": {k: x[k] for k in ("k", "f", "v", "fam", "st", "s", "text")}, "whys": p["whys"], "first_differing_record": p.get("rec"),
                      "input_text": render(x["text"], x["f"], x["v"]) if x["k"] == "tx" else json_input(x["s"], x["f"], x["v"]),
                      "real_text": render([t for t in o["text"] if not t.startswith("?")], x["f"], x["v"]) if x["k"] == "rt" else None,
                      "read_back": o["back"], "flags": FLAGS[(x["f"], x["v"])], "stderr": errs[idx]})
@@ -381,7 +381,18 @@ def run(tier, seed):
 
 
 def replay(path):
+    """Runs the stored case again on the rebuilt binary and lets TLC judge it again."""
     with open(path) as f:
         v = json.load(f)
-    print(json.dumps(v, indent=1, ensure_ascii=False))
-    return 0
+    x = v["detail"]["case"]
+    x.setdefault("text", [])
+    mlr = vlib.build_mlr()
+    run_ = make_run(mlr, x)
+    r = vlib.run_cases([run_])[0]
+    o, err = observe(x, r)
+    bad, _, _ = validate([o])
+    print(json.dumps({"key": v["key"], "case": x, "command": run_.get("shell") or run_.get("argv"),
+                      "real_text": render([t for t in o["text"] if not t.startswith("?")], x["f"], x["v"]),
+                      "read_back": o["back"], "idempotent": o["idem"], "stderr": err,
+                      "verdict": bad[0][1]["whys"] if bad else "conforms"}, indent=1, ensure_ascii=False))
+    return 1 if bad else 0
